@@ -79,6 +79,8 @@ func main() {
 			usage()
 		}
 		forEachCase(os.Args[2], runCase)
+	case "dump-surface":
+		dumpSurface(os.Args[2])
 	case "deadline":
 		if dn, err := os.OpenFile(os.DevNull, os.O_WRONLY, 0); err == nil {
 			os.Stdout = dn
